@@ -113,6 +113,15 @@ def run(repo: Repo, tier: str) -> Report:
         okc = len(calls) == 1 and len(calls[0].args) <= 4 and not any(k_.arg in over for k_ in calls[0].keywords)
         ob("R-BIND", drv, "the driver lets gammastd fit the distribution (no alpha/beta override is passed)", okc,
            f"calls: {[ast.unparse(c) for c in calls]}", calls[0] if calls else f"{drv}: gammastd(...)")
+    if len(over) == 2:
+        gfit = sorted(a_def.guards)
+        need_g = sorted([f"eq0[{over[0]}]", f"eq0[{over[1]}]"])
+        ob("R-FORMULA", "gammastd", "the fit is used exactly when neither override is given (a == 0 and b == 0)", [g_ for g_ in gfit if g_ in need_g] == need_g and
+           not [g_ for g_ in gfit if g_.startswith(("ne0[" + over[0], "ne0[" + over[1]))],
+           f"guards of `alpha, beta = gammafit(...)`: {gfit}; required {need_g}", a_def.stmt)
+        odefs = [d_ for d_ in sc.scalars[A] if d_ is not a_def]
+        ob("R-FORMULA", "gammastd", "otherwise alpha and beta are the caller's overrides", len(odefs) == 1 and odefs[0].rhs.key() in (over[0], f"item0[tuple[{over[0]};{over[1]}]]"),
+           f"other definitions of alpha: {[d_.rhs.key() for d_ in odefs]}", odefs[0].stmt if odefs else "alpha, beta = (a, b)")
     n_fit = sum(1 for c in ast.walk(spi.k["gammastd"].node) if isinstance(c, ast.Call) and ast.unparse(c.func) == "gammafit")
     ob("R-FORMULA", "gammastd", "gammafit is called once", n_fit == 1, f"{n_fit} calls", "gammafit(...)")
 
